@@ -76,7 +76,9 @@ def _generic(acc: Acc, name, lang, layout, files, vs, case):
         m = QUOTE.search(msg)
         if m and re.fullmatch(r"[\w.$]+", m.group(1)) and not name.startswith(("dry", "stringly", "file-placement", "file-header", "lazy")):
             tok = m.group(1)
-            if tok not in text:
+            # only names TAKEN FROM THE SOURCE are required on the line (the statement says so);
+            # placeholders such as 'arrow_function' for an anonymous function occur nowhere in it
+            if tok in files[f] and tok not in text:
                 acc.fail({**sig, "mode": "quoted-name-not-on-line", "rule": rid}, {**case, "line": line}, f"{tok!r} on line {line}", text[:160], msg[:160])
 
 
@@ -106,6 +108,8 @@ def _constructs():
     deep_ts = ["  if (a) {", "    if (a) {", "      if (a) {", "        work();", "      }", "    }", "  }", "}"]
     for variant, head in (("plain", ["@@function targetFn(a) {"]), ("multi-line-header", ["@@function targetFn(", "  a,", "  b,", ") {"]), ("arrow", ["@@const targetFn = (a) => {"]), ("exported", ["@@export function targetFn(a) {"])):
         out.append(("nesting", ".ts", {"nesting": {"max_nesting_depth": 2}}, f"ts-{variant}", head + deep_ts, "targetFn"))
+    out.append(("nesting", ".ts", {"nesting": {"max_nesting_depth": 2}}, "ts-wrapped-arrow-on-next-line", ["const targetFn = useCallback(", "@@  async (a) => {", "    if (a) {", "      if (a) {", "        if (a) {", "          work();", "        }", "      }", "    }", "  },", "  [],", ");"], ""))
+    out.append(("nesting", ".ts", {"nesting": {"max_nesting_depth": 2}}, "ts-wrapped-function-expression-on-next-line", ["const targetFn = debounce(", "@@  function (a) {", "    if (a) {", "      if (a) {", "        if (a) {", "          work();", "        }", "      }", "    }", "  },", "  250,", ");"], ""))
     deep_rs = ["    if a {", "        if a {", "            if a {", "                work();", "            }", "        }", "    }", "}"]
     for variant, head in (("plain", ["@@fn target_fn(a: bool) {"]), ("attributed", ["#[inline]", "#[allow(dead_code)]", "@@fn target_fn(a: bool) {"]), ("multi-line-header", ["@@fn target_fn(", "    a: bool,", ") {"]), ("pub-async", ["@@pub async fn target_fn(a: bool) {"])):
         out.append(("nesting", ".rs", {"nesting": {"max_nesting_depth": 2}}, f"rs-{variant}", head + deep_rs, "target_fn"))
@@ -140,6 +144,7 @@ def _constructs():
     out.append(("clone-abuse", ".rs", {}, "rs-clone-loop", ["fn target_fn(items: Vec<String>, y: String) {", "    for it in items.iter() {", "@@        consume(y.clone());", "    }", "    touch(&y);", "}"], "clone"))
     out.append(("clone-abuse", ".rs", {}, "rs-clone-wrapped-let", ["fn target_fn(source: String) -> usize {", "    let copied: String =", "@@        source.clone();", "    copied.len()", "}"], "clone"))
     out.append(("unwrap-abuse", ".rs", {}, "rs-unwrap-wrapped", ["fn target_fn(opt: Option<u32>) -> u32 {", "@?    let v = opt", "@@        .unwrap();", "    v", "}"], "unwrap"))
+    out.append(("unwrap-abuse", ".rs", {}, "rs-unwrap-far-right-on-continuation", ["fn target_fn(map: Table) -> usize {", "@?    let n = map", "@@        .get(\"a-rather-long-key-name\").map(|v| v.len()).unwrap();", "    n", "}"], "unwrap"))
     out.append(("magic-numbers", ".py", {}, "py-binop-continuation", ["def target_fn(first):", "    return (first", "@@            + 3601)"], "3601"))
     out.append(("magic-numbers", ".py", {}, "py-kwarg-multi-line", ["def target_fn():", "    return compute(", "        first,", "@@        limit=3601,", "    )"], "3601"))
     out.append(("magic-numbers", ".py", {}, "py-dict-multi-line", ["def target_fn():", "    return {", "        'a': first,", "@@        'b': 3601,", "    }"], "3601"))
